@@ -660,11 +660,17 @@ class Ev(object):
         v = self.apply(f, syms)
         del self.pc[n0:]
         changed = False
-        for k, val in self.store.cells.items():
+        for k, val in list(self.store.cells.items()):
             if k in before and before[k] is not val:
                 changed = True
+                # a captured variable is written by the callable: its value after an unknown number of
+                # calls is unknown, and the callable is not a function of its argument alone
+                self.store.cells[k] = tm.mk("havoc", "closure-state", tm.fresh("hv"))
         if not self.store.live:
             self.store.live = True
+        if changed:
+            self.nstateful = getattr(self, "nstateful", 0) + 1
+            v = tm.mk("stateful", self.nstateful, v)
         return tm.lam(syms, v), changed
 
     # ------------------------------------------------------------------ patterns
